@@ -39,6 +39,7 @@ def main() -> int:
     ap.add_argument("--seed", type=int, default=0)
     ap.add_argument("--no-demo", action="store_true")
     ap.add_argument("--keep", action="store_true")
+    ap.add_argument("--demo-only", action="store_true")
     a = ap.parse_args()
     d = Path(a.dir).resolve()
     meta = json.loads((d / "meta.json").read_text())
@@ -75,7 +76,7 @@ def main() -> int:
                     rc = -9
                 out[f"demo_{label}_rc"] = rc
                 print(f"demo[{label}] rc={rc} (want {want})")
-        for pid in checks:
+        for pid in ([] if a.demo_only else checks):
             scratch = ROOT / ".work" / "seedeval" / d.name
             e = dict(os.environ, VF_REPO_ROOT=str(wt), VF_SCRATCH_OUT=str(scratch))
             t0 = time.time()
